@@ -601,8 +601,79 @@ pub fn run_c06(ctx: &Ctx) {
             out::outcome(idx, &class, if sig.is_empty() { Verdict::Held } else { Verdict::Violated }, &sig, &J::new().s("exit_of_the_ending_lifetime", &dres.err().unwrap_or_else(|| "no-panic".into())).s("next_lifetime", &format!("{:?} / {:?}", b_calls, b_exit)));
         }
     }
+    // ---- the budget of a fake belongs to the user's calls. Functions a library might be tempted to call itself
+    // (clock, file reader, environment) are faked with `times: 0` and never called by the test; then another
+    // fake is installed, used and removed through the same injector while a second thread queues for the guard.
+    // Any panic means the library's own work went through the user's fake and was charged to it.
+    let mut bystander_trials = 0u64;
+    let bystanders: Vec<(&str, Box<dyn Fn(&mut InjectorPP)>)> = vec![
+        ("std::time::Instant::now", Box::new(|inj: &mut InjectorPP| inj.when_called(injectorpp::func!(fn (std::time::Instant::now)() -> std::time::Instant)).will_execute(injectorpp::fake!(func_type: fn() -> std::time::Instant, returns: std::time::Instant::now(), times: 0)))),
+        ("std::time::SystemTime::now", Box::new(|inj: &mut InjectorPP| inj.when_called(injectorpp::func!(fn (std::time::SystemTime::now)() -> std::time::SystemTime)).will_execute(injectorpp::fake!(func_type: fn() -> std::time::SystemTime, returns: std::time::UNIX_EPOCH, times: 0)))),
+        ("std::fs::read_to_string::<&str>", Box::new(|inj: &mut InjectorPP| inj.when_called(injectorpp::func!(std::fs::read_to_string::<&'static str>, fn(&'static str) -> std::io::Result<String>)).will_execute(injectorpp::fake!(func_type: fn(_p: &'static str) -> std::io::Result<String>, returns: Ok(String::new()), times: 0)))),
+        ("std::env::var::<&str>", Box::new(|inj: &mut InjectorPP| inj.when_called(injectorpp::func!(std::env::var::<&'static str>, fn(&'static str) -> Result<String, std::env::VarError>)).will_execute(injectorpp::fake!(func_type: fn(_k: &'static str) -> Result<String, std::env::VarError>, returns: Err(std::env::VarError::NotPresent), times: 0)))),
+    ];
+    for (name, arm_bystander) in bystanders.iter() {
+        let idx = special;
+        special += 1;
+        if !ctx.mine(idx) {
+            continue;
+        }
+        let class = format!("bystander-with-times-0/{}", name);
+        out::intent(idx, &class, &J::new().s("crash_sig", "bystander"));
+        let holder_in = Arc::new(AtomicBool::new(false));
+        let holder_in2 = holder_in.clone();
+        // a thread that queues for the guard while the bystander fake is live
+        let w = std::thread::spawn(move || {
+            while !holder_in2.load(Ordering::SeqCst) {
+                std::hint::spin_loop();
+            }
+            let (r, _) = panicobs::observe(|| {
+                let i = InjectorPP::new();
+                drop(i);
+                let p = InjectorPP::prevent();
+                drop(p);
+            });
+            r
+        });
+        let (res, msgs) = panicobs::observe(|| {
+            let mut inj = InjectorPP::new();
+            arm_bystander(&mut inj);
+            holder_in.store(true, Ordering::SeqCst);
+            N_STATIC.store(1, Ordering::SeqCst);
+            install(&mut inj, Arm::Ret, make(Arm::Ret));
+            let v = call(Arm::Ret, true);
+            std::thread::sleep(std::time::Duration::from_millis(5)); // the other thread is queueing now
+            inj.when_called(injectorpp::func!(fn (tgt_e)(i32) -> i32)).will_execute_raw(injectorpp::func!(fn (tgt_b2)(i32) -> i32));
+            drop(inj);
+            v
+        });
+        let wres = w.join().unwrap_or(Err("queueing thread died".into()));
+        bystander_trials += 1;
+        let mut sig = String::new();
+        let mut d = J::new().s("bystander", name).n("panics", msgs.len());
+        match (&res, &wres) {
+            (Ok(Ok(v)), Ok(())) if *v == faked_value(Arm::Ret) && msgs.is_empty() => {}
+            (Err(m), _) => {
+                sig = "library-work-went-through-a-fake-the-user-never-called".into();
+                d = d.s("panic_on_the_holder_thread", m);
+            }
+            (_, Err(m)) => {
+                sig = "library-work-went-through-a-fake-the-user-never-called".into();
+                d = d.s("panic_on_the_queueing_thread", m);
+            }
+            _ => {
+                sig = "library-work-went-through-a-fake-the-user-never-called".into();
+                d = d.s("holder", &format!("{:?}", res)).s("panics_seen", &format!("{:?}", msgs));
+            }
+        }
+        if call(Arm::Ret, true) != Ok(orig_value(Arm::Ret)) {
+            out::outcome(idx, &class, Verdict::Violated, "original-not-back", &d);
+            std::process::exit(75);
+        }
+        out::outcome(idx, &class, if sig.is_empty() { Verdict::Held } else { Verdict::Violated }, &sig, &d);
+    }
     let bo = by_outcome.iter().fold(J::new(), |j, (k, v)| j.n(k, *v));
-    out::summary(&J::new().n("calls_made_by_destructors_during_unwinding", unwinding_calls).n("scope_exits_stretched_with_the_next_lifetime_queued", stretched_exits).n("deallocations_delayed", crate::delayalloc::DELAYED_FREES.load(Ordering::SeqCst)).n("calls_racing_with_an_installation", race_hits).n("trials_total", trials.len()).n("calls_made", total_calls).n("multithread_trials_with_overlapping_call_windows", overlap_trials).o("by_outcome", bo));
+    out::summary(&J::new().n("bystander_trials", bystander_trials).n("calls_made_by_destructors_during_unwinding", unwinding_calls).n("scope_exits_stretched_with_the_next_lifetime_queued", stretched_exits).n("deallocations_delayed", crate::delayalloc::DELAYED_FREES.load(Ordering::SeqCst)).n("calls_racing_with_an_installation", race_hits).n("trials_total", trials.len()).n("calls_made", total_calls).n("multithread_trials_with_overlapping_call_windows", overlap_trials).o("by_outcome", bo));
 }
 
 // ---------------------------------------------------------------------------------- C07
@@ -771,5 +842,57 @@ pub fn run_c07(ctx: &Ctx) {
         out::outcome(idx, &class, if sig.is_empty() { Verdict::Held } else { Verdict::Violated }, &sig, &d);
     }
     let race_hits = race_trials(ctx, seqs.len() as u64);
-    out::summary(&J::new().n("sequences_total", seqs.len()).n("lifetimes_run", lifetimes).n("calls_racing_with_a_later_installation_of_the_site", race_hits));
+    // ---- the same fake! line evaluated twice within ONE lifetime, on two functions, exactly N calls to each: the second
+    // installation counts from zero too (its calls are all admitted) and nothing is left to complain about at scope exit
+    let mut double_armings = 0u64;
+    let mut sp = seqs.len() as u64 + 2;
+    for &arm in &[Arm::WhenRet, Arm::Ret] {
+        for n in [1usize, 2, 3] {
+            for earlier in [0usize, 2] {
+                let idx = sp;
+                sp += 1;
+                if !ctx.mine(idx) {
+                    continue;
+                }
+                let class = format!("{:?}/N={}/same-line-armed-twice-in-one-lifetime/earlier-lifetime-absorbed-{}", arm, n, earlier);
+                out::intent(idx, &class, &J::new().s("crash_sig", "double-arming"));
+                N_STATIC.store(n, Ordering::SeqCst);
+                if earlier > 0 {
+                    // an earlier lifetime of the line that ends with a count other than N
+                    let _ = helper_lifetime(arm, n + earlier, false, None, false);
+                }
+                let mut first: Vec<Result<i64, String>> = Vec::new();
+                let mut second: Vec<Result<i64, String>> = Vec::new();
+                let (exit, _) = panicobs::observe(|| {
+                    let mut inj = InjectorPP::new();
+                    USE_ALT_TARGET.with(|f| f.set(false));
+                    install(&mut inj, arm, make(arm));
+                    for _ in 0..n {
+                        first.push(call(arm, true));
+                    }
+                    USE_ALT_TARGET.with(|f| f.set(true));
+                    install(&mut inj, arm, make(arm));
+                    for _ in 0..n {
+                        second.push(call(arm, true));
+                    }
+                    USE_ALT_TARGET.with(|f| f.set(false));
+                    drop(inj);
+                });
+                USE_ALT_TARGET.with(|f| f.set(false));
+                double_armings += 1;
+                let all_ok = |v: &Vec<Result<i64, String>>| v.len() == n && v.iter().all(|r| *r == Ok(faked_value(arm)));
+                let sig = if !all_ok(&first) {
+                    "first-lifetime-wrong"
+                } else if !all_ok(&second) {
+                    "calls-of-an-earlier-installation-of-the-line-counted-toward-a-later-one"
+                } else if exit.is_err() {
+                    "exit-verdict-of-a-later-installation-depends-on-earlier-calls"
+                } else {
+                    ""
+                };
+                out::outcome(idx, &class, if sig.is_empty() { Verdict::Held } else { Verdict::Violated }, sig, &J::new().n("N", n).s("first", &format!("{:?}", first)).s("second", &format!("{:?}", second)).s("exit", &exit.err().unwrap_or_else(|| "no-panic".into())));
+            }
+        }
+    }
+    out::summary(&J::new().n("same_line_armed_twice_in_one_lifetime", double_armings).n("sequences_total", seqs.len()).n("lifetimes_run", lifetimes).n("calls_racing_with_a_later_installation_of_the_site", race_hits));
 }
